@@ -64,7 +64,7 @@ Definition priv_of (s : link) : list Z :=
     blen (w_samples w); samples_digest (w_samples w) 1 0; w_lost w; w_sent w;
     c_fr_ticks (k_core s); w_prev_bytes w; w_prev_nak w; b2z (w_baseline w);
     l_last l; l_high_since l;
-    e_ticks e; e_entry_pm e; b2z (e_unc e); e_unc_ticks e ].
+    e_ticks e; e_entry_pm e; b2z (e_unc e); e_unc_ticks e; b2z (c_seeded (k_core s)) ].
 
 Definition lobs_of (s : link) : lobs :=
   let sn := snapshot_of s in
@@ -84,6 +84,14 @@ Fixpoint run_from (c : ctrl) (ops : list op) : list (op * tobs) :=
       (Tick now inps, tobs_of c' inps) :: run_from c' t
   end.
 Definition run (ops : list op) : list (op * tobs) := run_from [] ops.
+
+(** the controller state after a history *)
+Fixpoint ctrl_from (c : ctrl) (ops : list op) : ctrl :=
+  match ops with
+  | [] => c
+  | Tick now inps :: t => ctrl_from (tick_all c now inps) t
+  end.
+Definition ctrl_after (ops : list op) : ctrl := ctrl_from [] ops.
 
 (** ---- well-formedness of a history (premise of the headline theorem) ----
     (a) a connection occurs at most once in the slice handed to [tick_all];
@@ -141,38 +149,66 @@ Definition first_code (l : list (bool * N)) : N :=
 
 Definition rtt_sample_present (rtt : float) : bool := f_lt fzero rtt && f_is_finite rtt.
 
-Definition mon_step (m : mon) (now : Z) (i : inp) (o : lobs) : mon :=
+(** is the loss average above the entry threshold in this snapshot *)
+Definition mon_high (o : lobs) : bool := f_lt FConstants.LOSS_DEGRADE_ENTER (o_lewma o).
+
+(** time since which the average has been above 0.55 at every tick of this link *)
+Definition next_since (m : mon) (now : Z) (o : lobs) : option Z :=
+  if mon_high o then (match m_since m with Some t => Some t | None => Some now end) else None.
+
+(** "stays within [100 kbit/s, 200 Mbit/s]" *)
+Definition c_range (o : lobs) : bool :=
+  (MIN_TARGET_BPS <=? o_tgt o) && (o_tgt o <=? MAX_TARGET_BPS).
+
+(** "sits at the floor until an RTT sample exists" *)
+Definition c_floor (m : mon) (i : inp) (o : lobs) : bool :=
+  m_rtt_seen m || rtt_sample_present (i_rtt i) || (o_tgt o =? MIN_TARGET_BPS).
+
+(** well-formedness check: a link that left Bootstrap does not fall back into it *)
+Definition c_rtt (m : mon) (o : lobs) : bool := negb (m_seeded m) || negb (o_st o =? 0).
+
+(** "is lowered only by a loss back-off (x0.85, never below the rate the link is measurably
+    delivering, never raising it) or once on entry to a drain (x0.75)" *)
+Definition c_lowered (m : mon) (i : inp) (o : lobs) : bool :=
   let observed := observed_bps i in
   let tgt := o_tgt o in
   let prev := m_tgt m in
-  let rtt_seen := m_rtt_seen m || rtt_sample_present (i_rtt i) in
-  let high := f_lt FConstants.LOSS_DEGRADE_ENTER (o_lewma o) in
-  let since := if high then (match m_since m with Some t => Some t | None => Some now end) else None in
-  let ok_range := (MIN_TARGET_BPS <=? tgt) && (tgt <=? MAX_TARGET_BPS) in
-  let ok_floor := rtt_seen || (tgt =? MIN_TARGET_BPS) in
-  let ok_lowered :=
-    m_fresh m || negb (tgt <? prev) ||
-    (* loss back-off: x0.85, never below the measured rate (or the old cap), never raising *)
-    ((o_st o =? 3) && (prev * 850 / 1000 <=? tgt) && (Z.min observed prev <=? tgt) &&
-     (tgt <=? Z.max MIN_TARGET_BPS (Z.max (prev * 850 / 1000 + 1) (Z.min observed prev)))) ||
-    (* entry to a drain: x0.75, once *)
-    ((o_st o =? 4) && negb (m_st m =? 4) && (prev * 750 / 1000 <=? tgt) &&
-     (tgt <=? Z.max MIN_TARGET_BPS (prev * 750 / 1000 + 1))) in
-  let ok_growth :=
-    m_fresh m || negb (m_seeded m) || negb (prev <? tgt) ||
-    ((tgt * 1000 <=? prev * 1060) && (tgt <=? 2 * observed)) in
-  let ok_latch_on :=
-    negb (o_deg o) || m_deg m ||
-    (high && match m_since m with Some t => 4000 <=? now - t | None => false end) in
-  let ok_latch_off :=
-    o_deg o || negb (m_deg m) || f_lt (o_lewma o) FConstants.LOSS_DEGRADE_CLEAR in
-  let ok_rtt := negb (m_seeded m) || negb (o_st o =? 0) in
-  let bad := first_code
-    [ (ok_range, cl_range); (ok_floor, cl_floor); (ok_rtt, cl_rtt_lost); (ok_lowered, cl_lowered);
-      (ok_growth, if prev =? MIN_TARGET_BPS then cl_growth_floor else cl_growth);
-      (ok_latch_on, cl_latch_on); (ok_latch_off, cl_latch_off) ] in
-  mkMon false tgt (o_st o) rtt_seen (m_seeded m || negb (o_st o =? 0)) since (o_deg o)
-        (if (m_bad m =? 0)%N then bad else m_bad m).
+  m_fresh m || negb (tgt <? prev) ||
+  ((o_st o =? 3) && (prev * 850 / 1000 <=? tgt) && (Z.min observed prev <=? tgt) &&
+   (tgt <=? Z.max MIN_TARGET_BPS (Z.max (prev * 850 / 1000 + 1) (Z.min observed prev)))) ||
+  ((o_st o =? 4) && negb (m_st m =? 4) && (prev * 750 / 1000 <=? tgt) &&
+   (tgt <=? Z.max MIN_TARGET_BPS (prev * 750 / 1000 + 1))).
+
+(** "after its initial seeding from measured throughput grows per tick by at most 6 % and
+    never to beyond twice the measured rate" *)
+Definition c_growth (m : mon) (i : inp) (o : lobs) : bool :=
+  let tgt := o_tgt o in
+  let prev := m_tgt m in
+  m_fresh m || negb (m_seeded m) || negb (prev <? tgt) ||
+  ((tgt * 1000 <=? prev * 1060) && (tgt <=? 2 * observed_bps i)).
+
+(** "latches only after the loss average has stayed above 0.55 for 4 s" *)
+Definition c_latch_on (m : mon) (now : Z) (o : lobs) : bool :=
+  negb (o_deg o) || m_deg m ||
+  (mon_high o && match m_since m with Some t => 4000 <=? now - t | None => false end).
+
+(** "clears only once it falls below 0.25" *)
+Definition c_latch_off (m : mon) (o : lobs) : bool :=
+  o_deg o || negb (m_deg m) || f_lt (o_lewma o) FConstants.LOSS_DEGRADE_CLEAR.
+
+Definition mon_clauses (m : mon) (now : Z) (i : inp) (o : lobs) : N :=
+  first_code
+    [ (c_range o, cl_range); (c_floor m i o, cl_floor); (c_rtt m o, cl_rtt_lost);
+      (c_lowered m i o, cl_lowered);
+      (c_growth m i o, if m_tgt m =? MIN_TARGET_BPS then cl_growth_floor else cl_growth);
+      (c_latch_on m now o, cl_latch_on); (c_latch_off m o, cl_latch_off) ].
+
+Definition mon_step (m : mon) (now : Z) (i : inp) (o : lobs) : mon :=
+  mkMon false (o_tgt o) (o_st o)
+        (m_rtt_seen m || rtt_sample_present (i_rtt i))
+        (m_seeded m || negb (o_st o =? 0))
+        (next_since m now o) (o_deg o)
+        (if (m_bad m =? 0)%N then mon_clauses m now i o else m_bad m).
 
 Definition mctrl := list (Z * mon).
 
